@@ -11,7 +11,9 @@ import (
 	"errors"
 	"fmt"
 	"reflect"
+	"strconv"
 	"strings"
+	"unicode/utf16"
 
 	"github.com/robertkrimen/otto"
 
@@ -57,7 +59,40 @@ func mustUnmarshal(raw json.RawMessage, v interface{}) {
 	}
 }
 
+// noNamedFloat32 replaces the named float32 type by float32: a value of a named
+// float32 type panics on first use (finding KF-C15-named-float32-panic, owned
+// by C15), which would mask everything this check wants to observe.
+func noNamedFloat32(g *rb.GV) {
+	if g.T == "MyF32" {
+		g.T = "float32"
+	}
+	g.T = strings.ReplaceAll(g.T, "MyF32", "float32")
+	for i := range g.E {
+		noNamedFloat32(&g.E[i])
+	}
+}
+
 func generate(r *gen.Rand, i int) Input {
+	in := generate0(r, i)
+	switch {
+	case in.CB != nil:
+		noNamedFloat32(&in.CB.Arg)
+	case in.Ret != nil:
+		for i := range in.Ret.Outs {
+			noNamedFloat32(&in.Ret.Outs[i])
+		}
+	case in.Hist != nil:
+		noNamedFloat32(&in.Hist.C)
+		for i := range in.Hist.Ops {
+			if in.Hist.Ops[i].G != nil {
+				noNamedFloat32(in.Hist.Ops[i].G)
+			}
+		}
+	}
+	return in
+}
+
+func generate0(r *gen.Rand, i int) Input {
 	switch r.Weighted([]int{62, 8, 8, 22}) {
 	case 0:
 		a := genArgCase(r)
@@ -113,6 +148,10 @@ func theVM() *otto.Otto {
 }
 
 func resetVM() { vm = nil }
+
+// resetVMKeep is called after a confirmed escaping panic: the runtime keeps
+// working (otto unwound through its own defers), so the history can continue.
+func resetVMKeep() {}
 
 func inputKey(in Input) string {
 	b, _ := json.Marshal(in)
@@ -207,6 +246,11 @@ func (k *checker) try(expr string) attempt {
 	}
 	if out.Err != nil {
 		a.runErr = out.Err
+		// the same statement without try/catch: does the Go panic escape Run?
+		if o2 := ox.Run(v, "("+expr+")"); o2.Panic != nil {
+			a.runErr = fmt.Errorf("%v (without try/catch the same statement makes a Go panic escape Run: %v)", out.Err, o2.Panic)
+			resetVMKeep()
+		}
 		return a
 	}
 	if len(logger.Events) == 2 {
@@ -346,6 +390,13 @@ func (k *checker) checkArg(ac ArgCase) bool {
 	}
 	// accepted: every received parameter must be the exact denotation
 	problems := k.judgeAccepted(ac, exps, rec.got, nfix)
+	if spread != nil && rec.got[nfix].Len() != 1 && spread.m == mustFail {
+		problems = "silent: spread argument " + fmt.Sprint(nfix) + " (..." + ac.Params[nfix] + ") " + spread.why + ", yet the function received " + rb.CanonValue(rec.got[nfix])
+	} else if spread != nil && rec.got[nfix].Len() != 1 {
+		if s := check(*spread, rec.got[nfix]); s != "" {
+			problems = "wrong: spread argument " + fmt.Sprint(nfix) + " (..." + ac.Params[nfix] + "): " + s
+		}
+	}
 	if problems != "" && spread != nil {
 		// alternative reading: the array was spread over the variadic tail
 		if spread.m != mustFail {
@@ -537,7 +588,12 @@ func (k *checker) checkCB(cb CBCase) bool {
 		body, wantThrow = `throw "cb"`, "nonerror:string:cb"
 	}
 	k.stage = "call"
-	site := "callback(func(" + cb.In + ")" + cb.Out + ")"
+	site := "callback:result:" + cb.Out
+	if strings.HasPrefix(cb.Body, "throw:") {
+		site = "callback:throw"
+	} else if cb.Out == "" {
+		site = "callback:noresult"
+	}
 	v.Run(`__seen = "not called"`)
 	a := k.try(`__f(function(a){ __seen = __desc(a) === __desc(__s) ? "same" : (__desc(a) + " vs " + __desc(__s)); ` + body + ` })`)
 	k.c.Eval(1)
@@ -705,29 +761,36 @@ func (k *checker) checkRet(rc RetCase) bool {
 	return true
 }
 
-// unStr decodes an ox.Enc string event back to UTF-8 (ASCII-only payloads are
-// all this package needs; escapes are resolved for completeness).
+// unStr decodes an ox.Enc string event ("s:\"...\"", UTF-16 units) back to UTF-8.
 func unStr(ev string) (string, bool) {
 	if !strings.HasPrefix(ev, `s:"`) || !strings.HasSuffix(ev, `"`) || len(ev) < 4 {
 		return "", false
 	}
 	body := ev[3 : len(ev)-1]
-	var b strings.Builder
+	var units []uint16
 	for i := 0; i < len(body); i++ {
 		c := body[i]
-		if c == '\\' && i+1 < len(body) {
-			if body[i+1] == 'u' && i+6 <= len(body) {
-				var v rune
-				fmt.Sscanf(body[i+2:i+6], "%x", &v)
-				b.WriteRune(v)
-				i += 5
-				continue
-			}
-			b.WriteByte(body[i+1])
-			i++
+		if c != '\\' {
+			units = append(units, uint16(c))
 			continue
 		}
-		b.WriteByte(c)
+		if i+1 >= len(body) {
+			return "", false
+		}
+		if body[i+1] == 'u' {
+			if i+6 > len(body) {
+				return "", false
+			}
+			v, err := strconv.ParseUint(body[i+2:i+6], 16, 16)
+			if err != nil {
+				return "", false
+			}
+			units = append(units, uint16(v))
+			i += 5
+			continue
+		}
+		units = append(units, uint16(body[i+1]))
+		i++
 	}
-	return b.String(), true
+	return string(utf16.Decode(units)), true
 }
